@@ -29,12 +29,16 @@ NoSess   == [pdu |-> 0, intended |-> NoLabel, ptype |-> 0, exts |-> <<>>]
 
 RxInit ==
   [ mgr |-> NoMgr, slots |-> 0, adm |-> {NoLabel}, mem |-> EmptyMem, prov |-> {}, owned |-> {},
-    ghost |-> [i \in {} |-> NoGhost], lock |-> FALSE, pend |-> NoPend, sess |-> [i \in {} |-> NoSess] ]
+    ghost |-> [i \in {} |-> NoGhost], lock |-> FALSE, pend |-> NoPend, sess |-> [i \in {} |-> NoSess],
+    \* user-supplied CRC calculators (driver custcrc): the receiver's / the sender's calculator returns the
+    \* complement of the standard CRC
+    inv |-> FALSE, txinv |-> FALSE ]
 
 RxBegin(e) ==
   [ RxInit EXCEPT !.mgr = IF Has(e, "rx") THEN MgrOf(e.rx.mgr) ELSE NoMgr,
                   !.slots = IF Has(e, "rx") THEN e.rx.slots ELSE 0,
-                  !.lock = Has(e, "lock") /\ e.lock ]
+                  !.lock = Has(e, "lock") /\ e.lock,
+                  !.inv = Has(e, "rxinv") /\ e.rxinv, !.txinv = Has(e, "txinv") /\ e.txinv ]
 
 \* ------------------------------------------------------- memory projection
 CtxIdx(m, id) == {i \in 1..Len(m.ctxs) : m.ctxs[i].id = id}
